@@ -425,8 +425,20 @@ def apply_R4(body, heap_methods, stats, fid):
             continue
         if recv.split(".")[0] in guard_names or re.match(r"itc\d+$", recv):
             continue
+        if recv.split(".")[-1] == "nodes":
+            continue  # the container's HashMap, not a node or a Graph
         op = mm.end() - 1
         cl = match_close(m, op)
+        calls.append(dict(name=name, open=op, close=cl, pos=mm.start(), mode=heap_methods[name]))
+    # R4c (UFCS form): Node::name(a, b, ..) of a heap-taking node-level method
+    for mm in re.finditer(r"\bNode\s*::\s*([A-Za-z_]\w*)\s*\(", m):
+        name = mm.group(1)
+        if name not in heap_methods:
+            continue
+        op = mm.end() - 1
+        cl = match_close(m, op)
+        if re.search(r",\s*heap\s*$", m[op + 1:cl]):
+            continue
         calls.append(dict(name=name, open=op, close=cl, pos=mm.start(), mode=heap_methods[name]))
     edits = []  # (start, end, replacement)
 
@@ -439,6 +451,13 @@ def apply_R4(body, heap_methods, stats, fid):
                 and (d["excl"] or c["excl"])]
         arg = c["recv"] if c["recv"].startswith("&") else "&" + c["recv"]
         fn = "adj_mut" if c["excl"] else "adj"
+        # R4d: a shared guard with an extended live range under which the heap is written: snapshot of the cell
+        if not c["excl"] and c["kind"] in ("for-iterator", "match-scrutinee", "if-let-scrutinee", "let-binding"):
+            wr = [d for d in chains if d is not c and d["excl"] and c["end"] <= d["start"] < c["rend"]]
+            wr += [cl for cl in calls if cl["mode"] == "mut" and c["end"] <= cl["pos"] < c["rend"]]
+            if wr:
+                fn = "adj_snap"
+                stats["R4d"] = stats.get("R4d", 0) + 1
         if held:
             stats["R4b-overlap"] = stats.get("R4b-overlap", 0) + 1
             nk = keyexpr(c["recv"])
@@ -446,6 +465,14 @@ def apply_R4(body, heap_methods, stats, fid):
             rep = "{ proof { %s } heap.%s(%s) }" % (hk, fn, arg)
         else:
             rep = "heap.%s(%s)" % (fn, arg)
+        if fn == "adj_snap" and c["kind"] != "let-binding":
+            # the guard is taken first in its statement: bind the snapshot just before it
+            s0, _ = stmt_start(m, c["start"])
+            while s0 < c["start"] and m[s0] in " \t\n":
+                s0 += 1
+            nm = "snap%d" % (len([e for e in edits if e[2].startswith("let snap")]) + 1)
+            edits.append((s0, s0, "let %s = %s; " % (nm, rep)))
+            rep = nm
         stats["R4"] = stats.get("R4", 0) + 1
         edits.append((c["start"], c["end"], rep))
     for cl in calls:
@@ -756,6 +783,26 @@ def generate(template_path, flavour, repo="/repo", vacuity=False, rules=None, ba
                 sig = rx.sub(lambda _m: to, sig)
                 body = rx.sub(lambda _m: to, body)
                 stats[rname] = stats.get(rname, 0) + n
+        # R16: pointer identity of two node handles -> the shim Node::same_cell (same allocation ==> same key)
+        rx16 = re.compile(r"\b(?:Rc|Arc)::ptr_eq\(\s*&\s*([\w\.]+?)\.inner\s*,\s*&\s*([\w\.]+?)\.inner\s*\)")
+        n16 = len(rx16.findall(body))
+        if n16:
+            body = rx16.sub(lambda mm: "%s.same_cell(&%s)" % (mm.group(1), mm.group(2)), body)
+            stats["R16"] = stats.get("R16", 0) + n16
+        # R13c: ahash containers are the std containers with another hasher (the hasher is not modelled)
+        rx13c = re.compile(r"\b(?:ahash|std::collections|hashbrown)::(?:A?Hash(Set|Map))\b")
+        n13 = len(rx13c.findall(body))
+        if n13:
+            body = rx13c.sub(lambda mm: "Hash" + mm.group(1), body)
+            body = re.sub(r"\bHashSet::(default|new)\(\)", r"HashSet::<_, std::hash::RandomState>::\1()", body)
+            body = re.sub(r"\bHashMap::(default|new)\(\)", r"HashMap::<_, _, std::hash::RandomState>::\1()", body)
+            stats["R13c"] = stats.get("R13c", 0) + n13
+        # R17: `g[&k]` (Index<&K> of the Graph container; slices are never indexed by reference) -> g.index(&k)
+        rx17 = re.compile(r"\b([A-Za-z_]\w*)\[\s*&\s*([A-Za-z_][\w\.]*)\s*\]")
+        n17 = len(rx17.findall(mask(body)))
+        if n17 and b.id not in ("Graph::index", "Graph::index_val"):
+            body = rx17.sub(lambda mm: "%s.index(&%s)" % (mm.group(1), mm.group(2)), body)
+            stats["R17"] = stats.get("R17", 0) + n17
         # R14: `mut self` receiver (unsupported by Verus) -> `self` + `let mut slf = self;`
         if re.search(r"\(\s*mut\s+self\b", mask(sig)):
             sig = re.sub(r"\(\s*mut\s+self\b", "(self", sig, count=1)
@@ -917,7 +964,7 @@ def generate(template_path, flavour, repo="/repo", vacuity=False, rules=None, ba
         out.append("    }")
         if vacuity and not b.extern_body and not b.novac:
             # vacuity guard: the same body against `ensures false`, callees keep their real contracts
-            vsig = re.sub(r"\bfn\s+%s\b" % re.escape(b.name), "fn %s__vac" % b.name, nsig, count=1)
+            vsig = re.sub(r"\bfn\s+(\w+)\b", lambda mm: "fn %s__vac" % mm.group(1), nsig, count=1)
             out.append("    // ---- vacuity copy of %s" % b.id)
             out.extend(("    " + vsig).split("\n"))
             out.extend(vacuous_spec(spec))
